@@ -30,3 +30,97 @@ theorem Program_new_valid (fl : Flags) (cls : CharClass) (o : Orders) (stmts : L
   obtain ⟨pre, fin, h1, h2, h3, h4, h5, _, h7⟩ := assignmentsToActions_valid fl o s1.assignments (finalWires s1 constants s3) known
     y86FixedFunctions s1.declared constants p.actions ho y86Fixed_table hyp.s1inv.aKeys hpure hdisj hact
   exact ⟨pre, fin, known, h1, h2, h3, h4, h5, h7⟩
+
+theorem sched_reads (avail : List String) : ∀ (l : List Action), Sched avail l →
+    ∀ a ∈ l, ∀ n ∈ a.reads, n ∈ avail ∨ n ∈ writesOf l
+  | [], _, a, ha, _, _ => by simp at ha
+  | b :: rest, hs, a, ha, n, hn => by
+    rcases List.mem_cons.mp ha with h | h
+    · subst h; exact Or.inl (hs.1 n hn)
+    · rcases sched_reads (avail ++ b.writes) rest hs.2 a h n hn with h1 | h1
+      · rcases List.mem_append.mp h1 with h2 | h2
+        · exact Or.inl h2
+        · right; simp [writesOf]; exact Or.inl h2
+      · right
+        simp only [writesOf, List.flatMap_cons, List.mem_append]
+        exact Or.inr h1
+
+/-- everything acceptance establishes, with one choice of the width table and the known values -/
+theorem Program_new_all (fl : Flags) (cls : CharClass) (o : Orders) (stmts : List Stmt) (p : Program)
+    (ho : OrdersOK o) (hwf : StmtsWF stmts)
+    (h : Program.new fl cls o y86FixedFunctions stmts = .ok p) :
+    ∃ (W : AMap Width) (known : List String) (pre fin : List Action),
+      ProgramOK fl W.toCtx p.constants.toEnv p known ∧
+      (∃ vals, p.initialValues = .ok vals ∧ ValsOK W.toCtx vals ∧
+        (∀ n ∈ known, vals.contains n = true) ∧ (∀ b ∈ p.banks, BankOK W.toCtx vals b)) ∧
+      p.actions = pre ++ fin ∧ ValidFrom [] pre ∧ (∀ a ∈ fin, a.isPure = false) := by
+  obtain ⟨s1, constants, s3, known, hyp, hknown, hact, hpc, hpb, hac⟩ := Program_new_decompose fl cls o stmts p hwf h
+  -- soundness part (as in Program_new_sound)
+  obtain ⟨hsched, hgood, _⟩ := assignmentsToActions_sound fl o s1.assignments (finalWires s1 constants s3) known
+    y86FixedFunctions s1.declared constants p.actions ho y86Fixed_table hyp.s1inv.aKeys hact
+  have hfix : ∀ f ∈ y86FixedFunctions, ∀ n w, f.outWire = some (n, w) →
+      (finalWires s1 constants s3).get? n = some (.bits w) := by
+    intro f hf n w hout
+    have hn : n ∈ fixedNamesOf y86FixedFunctions := by
+      have := List.all_eq_true.mp y86_out_in_names f hf
+      rw [hout] at this
+      simpa using this
+    rw [finalWires_fixed hyp n hn]
+    have := List.all_eq_true.mp y86W0_out f hf
+    rw [hout] at this
+    simpa using this
+  have hpure : ∀ f ∈ y86FixedFunctions, f.outWire.isSome = f.action.isPure := by
+    intro f hf
+    have := List.all_eq_true.mp y86Fixed_pure f hf
+    simpa using this
+  have hdisj : ∀ k ∈ s1.assignments.keys, k ∉ known := by
+    intro k hk hkn
+    rcases (hknown k).mp hkn with h1 | h1
+    · simp only [bankOuts, List.mem_flatMap, List.mem_map] at h1
+      obtain ⟨b, hb, sg, hsg, rfl⟩ := h1
+      have := hyp.s3f.outsNA b hb sg hsg
+      rw [(AMap.contains_iff_mem_keys _ _).mpr hk] at this
+      cases this
+    · obtain ⟨pr, hpr, rfl⟩ := List.mem_map.mp h1
+      obtain ⟨v, hkeys, _, _⟩ := (mem_constPairs _ _ _).mp hpr
+      have := hac pr.1 (hyp.s1inv.aAssigned _ hk)
+      rw [(AMap.contains_iff_mem_keys _ _).mpr hkeys] at this
+      cases this
+  obtain ⟨pre, fin, h1, h2, h3, _, _, _, _⟩ := assignmentsToActions_valid fl o s1.assignments (finalWires s1 constants s3) known
+    y86FixedFunctions s1.declared constants p.actions ho y86Fixed_table hyp.s1inv.aKeys hpure hdisj hact
+  refine ⟨finalWires s1 constants s3, known, pre, fin, ⟨finalWires_ctxOK hyp, ?_, hsched⟩, ?_, h1, h2, h3⟩
+  · intro a ha
+    rw [hpc]
+    exact goodAction_ok fl s1.assignments _ constants a hyp.s1inv.aWf hfix (hgood a ha)
+  · have hv0 : ValsOK (finalWires s1 constants s3).toCtx constants := by
+      intro n v hv
+      exact ⟨finalWires_const hyp n v hv, (hyp.cok n v hv).2⟩
+    obtain ⟨vals, g1, g2, g3, g4⟩ := banks_fold_ok (finalWires s1 constants s3).toCtx s3.banks constants
+      (banks_ready hyp) hv0
+    refine ⟨vals, by rw [initialValues_eq, hpc, hpb]; exact g1, g2, ?_, ?_⟩
+    · intro n hn
+      rcases (hknown n).mp hn with h1 | h1
+      · simp only [bankOuts, List.mem_flatMap, List.mem_map] at h1
+        obtain ⟨b, hb, sg, hsg, rfl⟩ := h1
+        exact ((g4 b hb).1 sg hsg).2
+      · obtain ⟨pr, hpr, rfl⟩ := List.mem_map.mp h1
+        obtain ⟨v, _, hg, _⟩ := (mem_constPairs _ _ _).mp hpr
+        exact g3 _ ((AMap.contains_iff_lookup _ _).mpr ⟨v, hg⟩)
+    · intro b hb
+      rw [hpb] at hb
+      have hbs := (hyp.s3f.banks b hb).sigs
+      obtain ⟨gs, gst, gbu⟩ := g4 b hb
+      exact {
+        defaults := by
+          intro q hq
+          obtain ⟨sg, hsg, e1, e2, e3⟩ := hbs.dflt q hq
+          refine ⟨?_, e3, ?_⟩
+          · rw [← e1, e2]; exact (finalWires_sig hyp b hb sg hsg).2
+          · rw [← e1]; exact (gs sg hsg).2
+        signals := by
+          intro sg hsg
+          obtain ⟨w1, w2⟩ := finalWires_sig hyp b hb sg hsg
+          exact ⟨by show (finalWires s1 constants s3).get? sg.1 = (finalWires s1 constants s3).get? sg.2.1; rw [w1, w2],
+            (gs sg hsg).1, (gs sg hsg).2⟩
+        stall := gst
+        bubble := gbu }
